@@ -302,3 +302,6 @@ func VerifOperators() map[rune]int {
 	}
 	return out
 }
+
+// VerifMaxValueDepth is the nesting bound of array values (popValue).
+func VerifMaxValueDepth() int { return maxValueDepth }
